@@ -27,6 +27,14 @@
 (* tokens.  C35_TokenLine: every tag token is reported on LineOf(tag).      *)
 (* Switch CountStripped (TRUE in the code): without the newlines_stripped   *)
 (* term TLC refutes C35_TokenLine.                                          *)
+(* A {% raw %} block (Raws) is lexed differently: the whole opening tag,    *)
+(* with the line breaks written inside it and the whitespace "-%}" swallows,*)
+(* is ONE begin token (raw_begin) that the "#bygroup" branch counts with    *)
+(*    lineno += value.count("\n")                                           *)
+(* and {% endraw %} ends the raw state like an ordinary tag (left "-",      *)
+(* right "-", trim_blocks).  Switch CountBegin (TRUE in the code): without  *)
+(* that increment every token after such a raw block is reported too early  *)
+(* and TLC refutes C35_TokenLine.                                           *)
 (***************************************************************************)
 EXTENDS Naturals, Sequences, FiniteSets, TLC, Json
 
@@ -43,12 +51,16 @@ CONSTANTS
     Probes,         \* a construct that raises when rendered: "raise" ({{ boom() }}), "raiseif", "raiseset",
                     \* "raisefor", "raiseauto", "raisetrans" (statements whose expression raises);
                     \* or a malformed token: "badtag","badexpr","badchar","badclose"
-    CountStripped
+    CountStripped,
+    Raws,           \* a {% raw %} ... {% endraw %} block: "none"; "top" (first thing after the blank lines of every
+                    \* template); "probe" (directly before the probe, inside the nest).  Its tags follow the sign
+                    \* policy, the opening tag takes the line break inside tags, its body is the tag gap
+    CountBegin      \* the "#bygroup" branch of the lexer advances the counter by the line breaks of the begin token
 
-VARIABLES wraps, pre, gap, pgap, sign, nlin, trim, probe,   \* the case (chosen in Init / Wrap)
+VARIABLES wraps, pre, gap, pgap, sign, nlin, trim, probe, raw,   \* the case (chosen in Init / Wrap)
           phase, tpls, j, p, lineno, tokLines
 
-vars == <<wraps, pre, gap, pgap, sign, nlin, trim, probe, phase, tpls, j, p, lineno, tokLines>>
+vars == <<wraps, pre, gap, pgap, sign, nlin, trim, probe, raw, phase, tpls, j, p, lineno, tokLines>>
 
 (* ---- items ---------------------------------------------------------------- *)
 NL == [k |-> "nl", name |-> "", d |-> 0, ref |-> "", l |-> "", r |-> "", nlin |-> 0]
@@ -62,7 +74,7 @@ AuxName(dd) == "a" \o Num[dd]
 
 LSign == IF sign \in {"lminus", "both"} THEN "-" ELSE ""
 RSign == IF sign \in {"rminus", "both"} THEN "-" ELSE ""
-OpenWithNl == {"if", "for", "block", "macro", "call"}
+OpenWithNl == {"if", "for", "block", "macro", "call", "raw"}
 
 Tag(name, dd, ref) ==
     [k |-> "tag", name |-> name, d |-> dd, ref |-> ref, l |-> LSign, r |-> RSign,
@@ -127,13 +139,16 @@ Creator(ws, i) == CHOOSE dd \in 1..Len(ws) : IsMulti(ws[dd]) /\ TplOf(ws, dd) = 
 Depths(ws, i) == SelectSeq([x \in 1..Len(ws) |-> x], LAMBDA dd : TplOf(ws, dd) = i)
 
 ProbeTag == Tag(probe, Len(wraps) + 1, "")
+\* the raw block (two tags; Spread puts the tag gap between them: that is the raw body)
+RawAt(where) == IF raw = where THEN <<Tag("raw", 0, ""), Tag("endraw", 0, "")>> ELSE <<>>
 
 \* the tags of template i, in source order
 TagsOf(ws, i) ==
     LET ds == Depths(ws, i) IN
-    (IF i > 1 THEN InnerOpen(ws[Creator(ws, i)], Creator(ws, i)) ELSE <<>>)
+    RawAt("top")
+    \o (IF i > 1 THEN InnerOpen(ws[Creator(ws, i)], Creator(ws, i)) ELSE <<>>)
     \o Concat([x \in 1..Len(ds) |-> OpenHere(ws[ds[x]], ds[x], TplName(i + 1))])
-    \o (IF i = NumTpls(ws) THEN <<ProbeTag>> ELSE <<>>)
+    \o (IF i = NumTpls(ws) THEN RawAt("probe") \o <<ProbeTag>> ELSE <<>>)
     \o Concat([x \in 1..Len(ds) |-> CloseHere(ws[Rev(ds)[x]], Rev(ds)[x])])
     \o (IF i > 1 THEN InnerClose(ws[Creator(ws, i)], Creator(ws, i)) ELSE <<>>)
 
@@ -180,7 +195,7 @@ ExpectedReport ==
 Init ==
     /\ wraps = <<>>
     /\ pre \in Pres /\ gap \in Gaps /\ pgap \in ProbeGaps /\ sign \in Signs
-    /\ nlin \in NlIns /\ trim \in Trims /\ probe \in Probes
+    /\ nlin \in NlIns /\ trim \in Trims /\ probe \in Probes /\ raw \in Raws
     /\ phase = "nest"
     /\ tpls = <<>>
     /\ j = 1 /\ p = 1 /\ lineno = 1 /\ tokLines = <<>>
@@ -189,14 +204,14 @@ Init ==
 Wrap(w) ==
     /\ phase = "nest" /\ Len(wraps) < MaxDepth
     /\ wraps' = Append(wraps, w)
-    /\ UNCHANGED <<pre, gap, pgap, sign, nlin, trim, probe, phase, tpls, j, p, lineno, tokLines>>
+    /\ UNCHANGED <<pre, gap, pgap, sign, nlin, trim, probe, raw, phase, tpls, j, p, lineno, tokLines>>
 
 \* lay the templates out and report what the property expects for the case
 Build ==
     /\ phase = "nest" /\ Valid(wraps)
     /\ tpls' = Templates(wraps)
     /\ phase' = "scan"
-    /\ UNCHANGED <<wraps, pre, gap, pgap, sign, nlin, trim, probe, j, p, lineno, tokLines>>
+    /\ UNCHANGED <<wraps, pre, gap, pgap, sign, nlin, trim, probe, raw, j, p, lineno, tokLines>>
 
 Items == tpls[j].items
 \* index of the first tag at or after position x (Len + 1 if none)
@@ -218,28 +233,33 @@ ScanTag ==
            dataNl == NlCount(SubSeq(Items, p, s - 1))                       \* data.count("\n")
            strippedNl == NlCount(SubSeq(Items, s, q - 1))                   \* newlines_stripped
            beginLine == lineno + dataNl + (IF CountStripped THEN strippedNl ELSE 0)
-           afterTag == beginLine + tag.nlin                                  \* whitespace tokens inside the tag
            e == IF tag.r = "-" THEN SkipWs(Items, q + 1)                     \* "-%}\s*"
-                ELSE IF trim /\ tag.name \notin VarTags /\ q + 1 <= Len(Items) /\ Items[q + 1].k = "nl"
+                ELSE IF trim /\ tag.name \notin (VarTags \cup {"raw"})     \* (no "\n?" after {% raw %})
+                        /\ q + 1 <= Len(Items) /\ Items[q + 1].k = "nl"
                      THEN q + 2                                              \* "%}\n?"
                      ELSE q + 1
+           \* line breaks between the begin delimiter and the end of what the end token swallows.  For an
+           \* ordinary tag they are whitespace tokens inside the tag and the block_end / variable_end token;
+           \* for {% raw %} the whole opening tag with what "-%}\s*" swallows is ONE begin token (raw_begin),
+           \* counted by the "#bygroup" branch:  lineno += value.count("\n")
+           inTag == tag.nlin + NlCount(SubSeq(Items, q + 1, e - 1))
        IN /\ tokLines' = Append(tokLines, [tpl |-> j, idx |-> q, line |-> beginLine])
-          /\ lineno' = afterTag + NlCount(SubSeq(Items, q + 1, e - 1))
+          /\ lineno' = beginLine + (IF tag.name = "raw" /\ ~CountBegin THEN 0 ELSE inTag)
           /\ p' = e
-    /\ UNCHANGED <<wraps, pre, gap, pgap, sign, nlin, trim, probe, phase, tpls, j>>
+    /\ UNCHANGED <<wraps, pre, gap, pgap, sign, nlin, trim, probe, raw, phase, tpls, j>>
 
 NextTemplate ==
     /\ phase = "scan" /\ NextTag(Items, p) > Len(Items) /\ j < Len(tpls)
     /\ j' = j + 1 /\ p' = 1 /\ lineno' = 1
-    /\ UNCHANGED <<wraps, pre, gap, pgap, sign, nlin, trim, probe, phase, tpls, tokLines>>
+    /\ UNCHANGED <<wraps, pre, gap, pgap, sign, nlin, trim, probe, raw, phase, tpls, tokLines>>
 
 Finish ==
     /\ phase = "scan" /\ NextTag(Items, p) > Len(Items) /\ j = Len(tpls)
     /\ phase' = "done"
     /\ PrintT(ToJson([wraps |-> wraps, pre |-> pre, gap |-> gap, pgap |-> pgap, sign |-> sign, nlin |-> nlin,
-                      trim |-> trim, probe |-> probe, tpls |-> tpls, expect |-> ExpectedReport,
+                      raw |-> raw, trim |-> trim, probe |-> probe, tpls |-> tpls, expect |-> ExpectedReport,
                       toks |-> tokLines]))
-    /\ UNCHANGED <<wraps, pre, gap, pgap, sign, nlin, trim, probe, tpls, j, p, lineno, tokLines>>
+    /\ UNCHANGED <<wraps, pre, gap, pgap, sign, nlin, trim, probe, raw, tpls, j, p, lineno, tokLines>>
 
 Next == (\E w \in Wrappers : Wrap(w)) \/ Build \/ ScanTag \/ NextTemplate \/ Finish
 
